@@ -1,0 +1,6 @@
+//go:build !verif
+
+package eval
+
+// VerifCacheOff is the memoization off switch of the `verif` build; always false in normal builds.
+const VerifCacheOff = false
